@@ -315,6 +315,9 @@ func (c *fragCtx) freeLocals(body []ast.Stmt, more []ast.Expr, skipNames []strin
 	for _, p := range c.params {
 		skip[p] = true
 	}
+	if c.method {
+		skip[c.recv] = true
+	}
 	seen := map[string]bool{}
 	var out []localVar
 	inner := map[types.Object]bool{}
@@ -628,6 +631,13 @@ func (c *fragCtx) trFor(x *ast.ForStmt, label string, after []ast.Stmt, k func()
 		// i = A, A+1, …, B-1 with B invariant
 		if mentions(cond.Y, asg) || mentions(cond.Y, map[string]bool{iv.Name: true}) {
 			return c.fail("for loop bound changes in the loop")
+		}
+		if c.method && mentions(cond.Y, map[string]bool{c.recv: true}) {
+			for _, f := range c.fields {
+				if asg[f.lean] {
+					return c.fail("for loop bound reads the receiver, whose fields change in the loop")
+				}
+			}
 		}
 		n := len(c.pre)
 		bound := c.expr(cond.Y)
